@@ -14,7 +14,8 @@ objection means the tie is broken but no failing input is exhibited (no-failing-
 import re
 
 ADDRS = ["4:c0000201:3478", "4:c0000201:3479", "6:20010db8000000000000000000000001:3478", "4:0a000001:9",
-         "6:00000000000000000000ffffc0000207:3478", "4:c0000207:3478"]
+         "6:00000000000000000000ffffc0000207:3478", "4:c0000207:3478",
+         "6:fe800000000000000000000000000001%2:3478", "6:fe800000000000000000000000000001%3:3478"]
 TIDS = [0x01, 0x0203_0405_0607_0809_0a0b_0c0d, 0xffff_ffff_ffff_ffff_ffff_ffff, 0x2112_a442, 0x7000_0000_0000_0000_0000_0001]
 
 
@@ -44,6 +45,17 @@ def _only_ops(ops, inner=None):
             return ""
         return inner(lhs, obs) if inner else obs
     return f
+
+
+def _c02(lhs, obs):
+    """parse lines in full; typed extraction only as found / decoding error / missing per kind (lookups
+    return the first match; what the value decodes to is C08's business)"""
+    op = kv_of(lhs).get("op", "")
+    if op == "parse":
+        return obs
+    if op == "typed":
+        return "|".join(e.split(":")[0] for e in obs.split("|"))
+    return ""
 
 
 def _c10(lhs, obs):
@@ -96,6 +108,8 @@ def _c04_bld(lhs, obs):
         elif op.startswith("q/"):
             q = _q_fields(o)
             keep.append(("v=" + q["v"] + ",p=" + q["p"].split(",")[0]) if q else o)
+        elif op.startswith("wp/"):
+            keep.append(o.rsplit(",v=", 1)[-1] if ",v=" in o else o)
     return ";".join(keep)
 
 
@@ -111,6 +125,8 @@ def _c09_bld(lhs, obs):
             q = _q_fields(o)
             # the bytes (the CRC is the last attribute) and whether the parser accepts them
             keep.append(("b=" + q["b"] + ",p=" + q["p"].split(",")[0]) if q else o)
+        elif op.startswith("wp/") and has_fp:
+            keep.append(o.split(",")[0])       # wp=ok / wp=err_…: does the in-place image still parse
     return ";".join(keep)
 
 
@@ -130,7 +146,7 @@ def _c11_bld(lhs, obs):
                 continue
             idx = seen.setdefault(q["b"], len(seen))
             keep.append(f"b#{idx},len={q['len']},has={q['has']},p={q['p'].split(',')[0]},v={q['v']}")
-        elif op == "t" or op.startswith("w/"):
+        elif op == "t" or op.startswith("w/") or op.startswith("wp/"):
             keep.append("")
         else:
             keep.append(o)
@@ -139,6 +155,10 @@ def _c11_bld(lhs, obs):
 
 def _c09_msg(lhs, obs):
     return "accepted" if obs.startswith("ok") else "refused"
+
+
+def _c09_attr(lhs, obs):
+    return obs if kv_of(lhs).get("k") == "Fingerprint" else ""
 
 
 def _c16(lhs, obs):
@@ -420,11 +440,11 @@ def _by_family(table, default=None):
 
 PROJECT = {
     "C01": _panic_only,
-    "C02": _only_ops({"parse"}),
+    "C02": _c02,
     "C17": _only_ops({"parse", "acc", "hdr"}),
     "C10": _c10,
     "C04": _by_family({"msg": _c04_msg, "bld": _c04_bld}),
-    "C09": _by_family({"msg": _c09_msg, "bld": _c09_bld}),
+    "C09": _by_family({"msg": _c09_msg, "bld": _c09_bld, "attr": _c09_attr}),
     "C11": _by_family({"bld": _c11_bld}),
     "C16": _c16,
     "C05": _ag_proj(instants=False, txfull=False, fields=["o"]),
